@@ -381,7 +381,7 @@ fn draw_u16(rng: &mut Rng) -> (f64, &'static str) {
 fn gen_cases(seed: u64, n: usize, tier: &str) -> Vec<Case> {
     let mut rng = Rng::new(seed);
     let mut v: Vec<Case> = Vec::new();
-    let mut push = |kind: &'static str, a: f64, b: f64, n: u64, draw: &'static str, v: &mut Vec<Case>| {
+    let push = |kind: &'static str, a: f64, b: f64, n: u64, draw: &'static str, v: &mut Vec<Case>| {
         let id = v.len();
         v.push(Case { id, kind, a, b, n, draw });
     };
